@@ -13,6 +13,7 @@
 #define SLOT 2u
 #define OTHERS (((1u << LHT_K) - 1u) & ~(1u << SLOT))
 #define ALL ((1u << LHT_K) - 1u)
+#define BIT(i) (1u << (i))
 
 static struct aws_linked_hash_table *lht_new_table(void) {
     struct aws_linked_hash_table *T = malloc(sizeof(*T));
@@ -46,14 +47,16 @@ void h_element_destroy(void) {
 static void put_existing(size_t null_slot) {
     struct aws_linked_hash_table *T = lht_new_table();
     lht_build(T, 1u << SLOT, OTHERS, null_slot);
-    const void *key = lht_matching_key(SLOT);
+    const void *key;
     void *val = lht_any_value();
     __CPROVER_assume(lht_abs_visible(&g_a, SLOT));
     g_M = g_a.node[SLOT];
     bool has_dv = T->user_on_value_destroy != NULL, has_dk = T->user_on_key_destroy != NULL;
-    bool other_ptr = g_a.key[SLOT] != key;
+    int r;
 
-    int r = aws_linked_hash_table_put(T, key, val);
+    LHT_EITHER(key, LHT_MATCHING_KEY_A(SLOT), LHT_MATCHING_KEY_B(SLOT), r = aws_linked_hash_table_put(T, key, val));
+
+    bool other_ptr = g_a.key[SLOT] != key;
 
     struct aws_linked_hash_table_node *fresh = (struct aws_linked_hash_table_node *)g_m.calloc_last;
     __CPROVER_assert(r == AWS_OP_SUCCESS, "put over an existing key succeeds");
@@ -78,11 +81,12 @@ void h_put_existing_null_key(void) {
 
 void h_put_new(void) {
     struct aws_linked_hash_table *T = lht_new_table();
-    lht_build(T, 0, ALL, LHT_NONE);
-    const void *key = lht_new_key();
+    lht_build(T, 0, BIT(0) | BIT(1) | BIT(LHT_K - 2) | BIT(LHT_K - 1), LHT_NONE); /* a put of a new key touches the back only */
+    const void *key;
     void *val = lht_any_value();
+    int r;
 
-    int r = aws_linked_hash_table_put(T, key, val);
+    LHT_EITHER(key, LHT_NEW_KEY_A, LHT_NEW_KEY_B, r = aws_linked_hash_table_put(T, key, val));
 
     struct aws_linked_hash_table_node *fresh = (struct aws_linked_hash_table_node *)g_m.calloc_last;
     if (r == AWS_OP_SUCCESS) {
@@ -103,14 +107,16 @@ void h_put_new(void) {
 static void find_common(bool existing, bool move) {
     struct aws_linked_hash_table *T = lht_new_table();
     lht_build(T, existing ? 1u << SLOT : 0, existing ? OTHERS : ALL, LHT_NONE);
-    const void *key = existing ? lht_matching_key(SLOT) : lht_new_key();
+    const void *key;
     if (existing) {
         if (move) __CPROVER_assume(lht_abs_visible(&g_a, SLOT));
         g_M = g_a.node[SLOT];
     }
     void *out = (void *)&g_m; /* not a value */
+    int r;
 
-    int r = move ? aws_linked_hash_table_find_and_move_to_back(T, key, &out) : aws_linked_hash_table_find(T, key, &out);
+    LHT_EITHER(key, existing ? LHT_MATCHING_KEY_A(SLOT) : LHT_NEW_KEY_A, existing ? LHT_MATCHING_KEY_B(SLOT) : LHT_NEW_KEY_B,
+               r = move ? aws_linked_hash_table_find_and_move_to_back(T, key, &out) : aws_linked_hash_table_find(T, key, &out));
 
     __CPROVER_assert(r == AWS_OP_SUCCESS, "find never fails");
     __CPROVER_assert(out == (existing ? g_a.val[SLOT] : NULL), "find: the value stored under an equal key, NULL when there is none");
@@ -146,14 +152,16 @@ void h_move_node_to_end(void) {
 static void remove_common(bool existing, size_t null_slot) {
     struct aws_linked_hash_table *T = lht_new_table();
     lht_build(T, existing ? 1u << SLOT : 0, existing ? OTHERS : ALL, null_slot);
-    const void *key = existing ? lht_matching_key(SLOT) : lht_new_key();
+    const void *key;
     if (existing) {
         __CPROVER_assume(lht_abs_visible(&g_a, SLOT));
         g_M = g_a.node[SLOT];
     }
     bool has_dv = T->user_on_value_destroy != NULL, has_dk = T->user_on_key_destroy != NULL;
+    int r;
 
-    int r = aws_linked_hash_table_remove(T, key);
+    LHT_EITHER(key, existing ? LHT_MATCHING_KEY_A(SLOT) : LHT_NEW_KEY_A, existing ? LHT_MATCHING_KEY_B(SLOT) : LHT_NEW_KEY_B,
+               r = aws_linked_hash_table_remove(T, key));
 
     __CPROVER_assert(r == AWS_OP_SUCCESS, "remove never fails");
     if (existing) {
